@@ -6,9 +6,11 @@ NOTES = ("All checks are ./check <id> --tier quick|thorough (runner/vrunner.py).
          "spec/b3spec (anchored against a second Python model and the published vectors on every run).")
 
 ENGINES_DOC = [
+    {"name": "stock", "path": "engines/stock", "serves_properties": ["C04"],
+     "kind_free_text": "Rust; a stock build of the crate with the hook guard OFF and upstream's no_* features, computing the cross-configuration ledger (validates the H1 hook)"},
     {"name": "b3sum", "path": "engines/b3sum", "serves_properties": ["C12", "C13"],
      "kind_free_text": "Rust; builds the real b3sum binary from /repo/b3sum/src/main.rs and includes the same file as a module to reach its private parser/printer; enumerates CLI invocations, checkfiles and paths"},
-    {"name": "core", "path": "engines/core", "serves_properties": ["C01", "C02", "C03", "C09", "C10", "C11", "C14", "C15", "C16", "C17"],
+    {"name": "core", "path": "engines/core", "serves_properties": ["C01", "C02", "C03", "C04", "C09", "C10", "C11", "C14", "C15", "C16", "C17"],
      "kind_free_text": "Rust; drives the real blake3 crate (path dependency on /repo) with forced SIMD levels; bounded-exhaustive enumeration and explicit-state BFS over the real Hasher/OutputReader"},
 ]
 
@@ -92,6 +94,13 @@ CHECKS["C13"] = {
     "technique": "bounded-exhaustive enumeration of paths and check lines through the real filepath_to_string / parse_check_line (included from main.rs) and the real binary, vs a reference printer/parser written from the documentation",
     "text": "Every path of length 1..4 (quick) / 5 (thorough) over 13 symbols (space, backslash, LF, CR, parentheses, =, B, 0xFF, U+FFFD, a 2-byte character, NUL, a) plus seeds is printed by the real filepath_to_string in plain and --tag form with LF/CRLF/no terminator and parsed back by the real parse_check_line: the line must equal the documented format, the round trip must succeed exactly for representable paths, and no two paths may parse to the same path. Every single-character insert/replace/delete/duplicate (20 characters, every position) of 20 valid lines, multi-byte hash fields, and all strings up to length 3 / 4 over 12 characters are parsed: never a panic, Ok only with the result the documented format gives, b3sum's own output never rejected. The real binary then hashes ~190 / ~2200 real files with such names in both forms and --check is run on its output.",
     "note": "Reference printer/parser (engines/b3sum/src/refmodel.rs) written from what_does_check_do.md and the property statement. Unix path semantics.",
+}
+
+CHECKS["C04"] = {
+    "engine": "core (C01+C02+C03+C09 sub-engines) x builds", "category": "exploration", "design_ref": "DESIGN.md 3/C04",
+    "technique": "the C01/C02/C03/C09 enumerations and state-space explorations re-run in every cell of the build-flavour x feature-set x forced-SIMD-level matrix, each vs the spec model, plus cross-build ledger equality",
+    "text": "The one-shot enumeration (C01), the Hasher BFS (C02), the OutputReader BFS (C03) and the hazmat enumeration (C09) are run in three builds of the crate (quick: assembly+default features, prefer_intrinsics+all features, pure+no default features; thorough: all nine flavour x feature-set combinations), each at every SIMD level the CPU has (forced through the H1 hook), every result compared with the independent spec model. A fixed ledger of one-shot cases is additionally summed per level and must be identical across builds; in the thorough tier it must also equal the ledger of stock builds (hook guard off) restricted with upstream's own no_avx512/no_avx2/no_sse41/no_sse2 features, which validates the H1 hook itself.",
+    "note": "Not reachable here: 32-bit x86, NEON, wasm, MSVC assembly. Trusted: b3spec, H1 hook (validated against stock no_* builds in the thorough tier).",
 }
 
 NOT_APPLICABLE = {("C%02d" % i): PENDING for i in range(1, 19)}
